@@ -429,7 +429,14 @@ func (e *Engine) Explore(h Harness, cfg Config, opt ExploreOpts) (*ExploreStats,
 				prefix := work[len(work)-1]
 				work = work[:len(work)-1]
 				active++
-				wantSample := len(st.Samples) < opt.Samples+2
+				nViolSamples := 0
+				for _, x := range st.Samples {
+					if x.HadViolation {
+						nViolSamples++
+					}
+				}
+				// a model for the path's inputs is only computed while samples are still wanted
+				wantSample := len(st.Samples)-nViolSamples < opt.Samples || (nViolSamples < 2 && len(st.Viols) > 0 && len(st.Viols) < 50)
 				mu.Unlock()
 
 				res := w.runPath(h, fn, cfg, prefix, wantSample)
